@@ -110,20 +110,22 @@ def start_texts(ctx, prop, res):
         pick = tl2 + rng.sample(tl3, min(len(tl3), n3))
         ctxs = rewrite.contexts(pick, rng, {"C01": 500, "C04": 400, "C06": 300, "C07": 1200}[prop] if q else 12000)
         gens = rewrite.generator_outputs(ctx.seed, 120 if q else 3000)
-        texts = sent_texts + extra + pick + ctxs + rewrite.test_json_inputs() + gens
+        forms = rewrite.FORMS + rewrite.contexts(rewrite.FORMS, rng, 40 if q else 400)
+        texts = sent_texts + extra + pick + ctxs + rewrite.test_json_inputs() + gens + forms
         parts.append("%d/%d TLC-emitted sentences (<= 5 tokens) + %d operand variants; %d term-level trees (16 term forms, + - * /, every grouping, <= 3 leaves); "
-                     "%d embeddings under + - * / ^ neg sgn = ; the inputs/outputs of every rules/*.test.json example; %d generator outputs"
+                     "%d embeddings under + - * / ^ neg sgn = ; the inputs/outputs of every rules/*.test.json example; %d generator outputs; the documented alternate tree forms, their additive analogues and special value classes (rewrite.FORMS / EQ_FORMS)"
                      % (len(sent_texts), len(sents), len(extra), len(pick), len(ctxs), len(gens)))
         if prop in ("C04", "C06", "C07"):
             eqs = rewrite.equations(True)
-            texts += rng.sample(eqs, min(len(eqs), 150 if q else len(eqs)))
+            texts += rng.sample(eqs, min(len(eqs), 150 if q else len(eqs))) + rewrite.EQ_FORMS
     if prop == "C02":
         eqs = rewrite.equations(q)
         more = []
-        for t in rng.sample(rewrite.term_level(2, rewrite.TERMS_Q), 200 if q else 1500):
+        tl2 = rewrite.term_level(2, rewrite.TERMS_Q)
+        for t in rng.sample(tl2, min(len(tl2), 200 if q else 1500)):
             more.append("%s = %s" % (t, rng.choice(["3", "x", "2x + 1", "y"])))
             more.append("%s = %s" % (rng.choice(["0", "x", "y + 1"]), t))
-        texts = eqs + more + [t for t in rewrite.test_json_inputs() if "=" in t]
+        texts = eqs + more + [t for t in rewrite.test_json_inputs() if "=" in t] + rewrite.EQ_FORMS
         parts.append("%d equations L = R over %d side forms (addend at top level, inside a product, quotient, power base/exponent, negation, "
                      "subtrahend, function argument; coefficients 0 and 1; one and two variables) + %d term-level sides + test.json equations"
                      % (len(eqs), len(rewrite.EQUATION_SIDES), len(more)))
@@ -145,10 +147,10 @@ def run_family(ctx, cases, prop):
         texts, res.rule = start_texts(ctx, prop, res)
         res.exhaustive = False
     else:
-        texts = [c["text"] for c in cases]
+        texts = [c["second"][0] if c.get("second") else c["text"] for c in cases]
         res.rule = "replay"
     from multiprocessing import Pool
-    jobs = [(t, prop == "C06") for t in texts]
+    jobs = [(t, prop == "C06", prop == "C02") for t in texts]
     with Pool(16) as pool:
         events = [e for l in pool.map(rewrite.events_for_text, jobs, chunksize=20) for e in l]
     if prop == "C04":
@@ -180,6 +182,8 @@ def run_family(ctx, cases, prop):
     res.traces = len(events)
     res.evaluations = len(events)
     res.distinct_nontrivial = len({(e["text"], e["rule"], e["opt"], e["k"]) for e in steps})
+    if prop == "C02":
+        res.rule += "; plus a second step (same rule objects) from up to three first-step results per equation"
     res.rule += " | every rule instance (11) at every node where the real can_apply_to is true; non-trivial = distinct (start text, rule, option, node) steps"
     by_rule = {}
     for e in steps:
@@ -201,5 +205,5 @@ def run_family(ctx, cases, prop):
             continue
         e = events[eid - 1]
         what = "%s%s at in-order node %s of %r -> %r: %s" % (e["rule"], ":" + e["opt"] if e["opt"] else "", e.get("k", "-"), e["text"], e.get("printed", ""), mine)
-        res.violations.append(Violation(signature(prop, e, mine), what, {"text": e["text"], "rule": e["rule"], "opt": e["opt"], "k": e.get("k")}, mine))
+        res.violations.append(Violation(signature(prop, e, mine), what, {"text": e["text"], "rule": e["rule"], "opt": e["opt"], "k": e.get("k"), "second": e.get("second")}, mine))
     return res
